@@ -1,3 +1,4 @@
+import WmModel.Props.C05Live
 import WmModel.Props.C07Locks
 import WmModel.Props.C07Close
 import WmModel.Props.C07Dec
@@ -40,3 +41,7 @@ import WmModel.Props.C07
 #print axioms Wm.GcDec.dec_witness
 #print axioms Wm.GcReg.removed_only_after_own_cancel_or_close
 #print axioms Wm.GcReg.subs_change
+#print axioms Wm.GcReg.nonblocking_no_deadlock
+#print axioms Wm.GcReg.blocking_deadlock_needs_nested_publish
+#print axioms Wm.GcReg.closing_no_deadlock
+#print axioms Wm.GcReg.d11_has_nested_publish
